@@ -119,6 +119,43 @@ func (e *Exec) freshResults(res *types.Tuple, name string) Value {
 
 func (e *Exec) callFunc(st *State, f *ssa.Function, bindings, args []Value, pos token.Pos) Value {
 	key := funcKey(f)
+	// call-site requirements of the function under verification
+	if e.Spec != nil && e.Spec.SiteReqs != nil && e.dry == 0 {
+		if reqs, ok := e.Spec.SiteReqs[f.Name()]; ok {
+			vars := map[string]specVar{}
+			for _, p := range e.Fn.Params {
+				p := p
+				vars[p.Name()] = func(s *State) Value { return e.paramValue(s, p) }
+			}
+			if e.Spec != nil {
+				for i, n := range e.Spec.Params {
+					if i < len(e.Fn.Params) {
+						p := e.Fn.Params[i]
+						vars[n] = func(s *State) Value { return e.paramValue(s, p) }
+					}
+				}
+			}
+			for i, a := range args {
+				a := a
+				vars[fmt.Sprintf("arg%d", i)] = func(*State) Value { return a }
+				if i < len(f.Params) {
+					vars[f.Params[i].Name()] = func(*State) Value { return a }
+				}
+			}
+			if cs := e.DB.Funcs[key]; cs != nil {
+				for i, n := range cs.Params {
+					if i < len(args) {
+						a := args[i]
+						vars[n] = func(*State) Value { return a }
+					}
+				}
+			}
+			for _, rq := range reqs {
+				t := e.evalSpecBool(rq, vars, st, e.entry, "at "+f.Name()+" requires")
+				e.oblige(st, "site", f.Name()+": "+clauseLabel(rq), t, pos)
+			}
+		}
+	}
 	forceInline := false
 	if e.Spec != nil {
 		for _, n := range e.Spec.Inlines {
@@ -371,6 +408,10 @@ func (e *Exec) applyContract(st *State, spec *FuncSpec, sig *types.Signature, pa
 	}
 	for _, as := range spec.Assigns {
 		se := &specEnv{e: e, st: st, old: old, vars: vars, bound: map[string]Value{}, where: "assigns of " + short}
+		if call, ok := as.Expr.(*SCall); ok && call.Fun == "reach" && len(call.Args) == 1 {
+			e.havocReach(st, se.eval(call.Args[0]), smt.Sanitize(short)+"_reach", 0, map[*Object]bool{}, pos)
+			continue
+		}
 		for _, gl := range se.evalLocs(as.Expr) {
 			e.frameCheck(st, gl.loc, gl.cond, "call "+short+" assigns "+as.Text, pos)
 			oldv := e.loadLoc(st, gl.loc)
@@ -645,6 +686,62 @@ func (e *Exec) frameCheck(st *State, l *Loc, cond *smt.Term, what string, pos to
 func (e *Exec) allowedWrite(l *Loc) bool {
 	if e.assignsAny {
 		return true
+	}
+	if len(e.assignsReach) > 0 {
+		seen := map[*Object]bool{}
+		var reach func(v Value, depth int) bool
+		reach = func(v Value, depth int) bool {
+			if depth > 8 || v == nil {
+				return false
+			}
+			switch x := v.(type) {
+			case *PtrV:
+				for _, al := range x.Alts {
+					if al.Loc == nil {
+						continue
+					}
+					if al.Loc.Obj == l.Obj {
+						return true
+					}
+					if len(al.Loc.Path) == 0 {
+						if seen[al.Loc.Obj] {
+							continue
+						}
+						seen[al.Loc.Obj] = true
+					}
+					if reach(e.loadLoc(e.entry, al.Loc), depth+1) {
+						return true
+					}
+				}
+			case *SliceV:
+				for _, al := range x.Alts {
+					if al.Loc != nil && al.Loc.Obj == l.Obj {
+						return true
+					}
+				}
+			case *StructV:
+				for i := 0; i < x.T.NumFields(); i++ {
+					switch x.T.Field(i).Type().Underlying().(type) {
+					case *types.Pointer, *types.Slice, *types.Struct, *types.Interface, *types.Array:
+						if reach(x.Field(i), depth) {
+							return true
+						}
+					}
+				}
+			case *IfaceV:
+				for _, al := range x.Alts {
+					if al.Typ != nil && reach(al.Val, depth+1) {
+						return true
+					}
+				}
+			}
+			return false
+		}
+		for _, r := range e.assignsReach {
+			if reach(r, 0) {
+				return true
+			}
+		}
 	}
 	for _, a := range e.assigns {
 		if a.Obj != l.Obj || len(a.Path) > len(l.Path) {
